@@ -41,6 +41,20 @@ def value_pools(rng: random.Random) -> Dict[int, Any]:
   return vals
 
 
+def bad_values(rng: random.Random):
+  """Values whose serialisation raises: the write must fail and leave the store untouched."""
+  class Unconvertible:           # pylint: disable=too-few-public-methods
+    def __reduce__(self):
+      raise TypeError('cannot be pickled or converted')
+  pool = [
+      lambda: codec.A(x=pg.Ref(codec.A(x=1))),                       # pg.Ref without save_ref_value
+      lambda: pg.Dict(a=1, b=pg.List([codec.Scopes().meth])),        # bound instance method
+      lambda: pg.List([1, (2, Unconvertible())]),                    # opaque object that cannot be pickled
+      lambda: codec.B(x=pg.Dict(k=pg.Ref(pg.Dict())), y=1),
+  ]
+  return rng.choice(pool)()
+
+
 class StoreDivergence(Exception):
   def __init__(self, clause, detail):
     super().__init__(clause)
@@ -115,6 +129,10 @@ class StoreReplayer:
     try:
       if name == 'Save':
         pg.save(self.value[act[3]], self.path(act[1], act[2]))
+      elif name == 'SaveBad':
+        pg.save(bad_values(self.rng), self.path(act[1], act[2]))
+      elif name == 'AddBad':
+        self.handle.add(12345 if self.handle_api == 'text' else bad_values(self.rng))
       elif name == 'Load':
         ret = pg.load(self.path(act[1], act[2]))
       elif name == 'Exists':
